@@ -773,6 +773,9 @@ package app
 //@ func (*app.App).calcActiveNodes
 //@   requires c20 [safety]: statesOK(app, clusterState) && clusterState[master] != nil
 //@ func (*app.App).calcActiveNodesChanges
+//@   loop 1 invariant dead: forall k string :: visited[k] && (!clusterState[k].PingOk || clusterState[k].SlaveState == nil) ==> contains(deadReplicas, k)
+//@   loop 2 invariant slaves: forall i int :: in_range(i, becomeActive) ==> clusterState[becomeActive[i]] != nil && clusterState[becomeActive[i]].SlaveState != nil
+//@   loop 3 invariant slaves: forall i int :: in_range(i, becomeActive) ==> clusterState[becomeActive[i]] != nil && clusterState[becomeActive[i]].SlaveState != nil
 //@   requires c20 [safety]: statesOK(app, clusterState) && clusterState[master] != nil && (forall i int :: in_range(i, activeNodes) ==> clusterState[activeNodes[i]] != nil && (clusterState[activeNodes[i]].SlaveState != nil || contains(oldActiveNodes, activeNodes[i]) || activeNodes[i] == master))
 //@ func (*app.App).updateActiveNodes
 //@   requires c20 [safety]: statesOK(app, clusterState) && statesOK(app, clusterStateDcs) && clusterState[master] != nil && optOK(app)
